@@ -37,9 +37,9 @@ Fams == {"l1", "cat", "alt", "grp", "fixed", "two"}
 \* C11: matcher-level option sets (inversion is not a matcher option) and extra families
 MatcherOptSets == {o \in OptSets : ~o.inv} \cup {[Plain EXCEPT !.nul = TRUE], [Plain EXCEPT !.ci = TRUE, !.crlf = TRUE],
                                                  [Plain EXCEPT !.word = TRUE, !.crlf = TRUE]}
-C11Fams == Fams \cup {"lf", "inner", "altlit"}
+C11Fams == Fams \cup {"lf", "inner", "altlit", "nou"}
 C11Seeds == {[o |-> o, fam |-> f, pats |-> <<>>, fixed |-> FALSE] : o \in MatcherOptSets, f \in C11Fams}
-C11SeedsQuick == {s \in C11Seeds : s.fam \in {"l1", "alt", "grp", "lf", "inner", "two", "altlit"}}
+C11SeedsQuick == {s \in C11Seeds : s.fam \in {"l1", "alt", "grp", "lf", "inner", "two", "altlit", "nou"}}
 WPlus == URep(UWCls(FALSE), 1, Inf, TRUE)
 NWStar == URep(UWCls(TRUE), 0, Inf, TRUE)
 NWPlus == URep(UWCls(TRUE), 1, Inf, TRUE)
@@ -78,6 +78,11 @@ MCPatternsOf(sd) ==
                                       UAlt(UCat(URep(ULit(SSP), 0, Inf, TRUE), ULit(SDOT)), URep(ULit(SSP), 1, Inf, TRUE)),
                                       UAlt(UCat(NWStar, ULit(SUA)), UAlt(ULit(SDOT), NWPlus)),
                                       UAlt(UCat(ULit(SUA), ULit(SDOT)), URep(UDot, 0, Inf, TRUE))}}
+    \* byte-mode classes ((?-u:...)): the dot and negated classes range over every byte, the terminator among them
+    [] sd.fam = "nou" -> {[sd EXCEPT !.pats = <<UNoU(x)>>] :
+                            x \in {UCat(ULit(SA), UCat(UDot, ULit(SB))), UCls({SA}, TRUE), UCat(ULit(SA), UCls({SB}, TRUE)), UWCls(TRUE),
+                                   UCat(ULit(SA), UWCls(TRUE)), URep(UDot, 1, Inf, TRUE), UCls({SA, SLF}, FALSE), UCls({SNUL, SA}, FALSE),
+                                   UCat(ULit(SA), UCat(UCls({SCR, SLF, SB}, FALSE), ULit(SB))), UCls({SLF, SCR}, FALSE), UDot}}
     [] sd.fam = "two" -> {[sd EXCEPT !.pats = <<x, y>>] : x \in Leaves, y \in {ULit(SUA), ULit(SB), UCat(ULit(SA), ULit(SB))}}
                          \* two patterns whose texts differ only in the case of a letter
                          \cup {[sd EXCEPT !.pats = pr] : pr \in {<<UWCls(FALSE), UWCls(TRUE)>>, <<UWCls(TRUE), UWCls(FALSE)>>,
